@@ -49,7 +49,7 @@ pub fn base_types() -> Vec<FTy> {
 /// types that lack some capability (used only where the trait set permits)
 pub fn partial_types() -> Vec<FTy> {
     vec![
-        ft("f32", &["1.5f32", "f32::NAN", "-2.0f32"], DEBUG | CLONE | COPY | PEQ | PORD | DEFAULT | KEY | CONSTVAL),
+        ft("f32", &["0.0f32", "f32::NAN", "-0.0f32", "1.5f32"], DEBUG | CLONE | COPY | PEQ | PORD | DEFAULT | KEY | CONSTVAL),
         ft("Inc", &["Inc(1)", "Inc(3)", "Inc(4)", "Inc(2)"], DEBUG | CLONE | COPY | PEQ | EQ | PORD | HASH | DEFAULT | KEY | CONSTVAL),
         ft(
             "::core::num::NonZeroU8",
@@ -290,7 +290,7 @@ pub fn default_exprs() -> Vec<(&'static str, Vec<(&'static str, &'static str)>)>
     vec![
         ("7", vec![("u8", "7u8"), ("i64", "7i64"), ("u64", "7u64"), ("f64", "7f64"), ("Wrap", "Wrap(7)"), ("i16", "7i16"), ("usize", "7usize")]),
         ("1.5", vec![("f64", "1.5f64"), ("f32", "1.5f32"), ("Wrap", "Wrap(12)")]),
-        ("true", vec![("bool", "true"), ("Wrap", "Wrap(1)")]),
+        ("true", vec![("bool", "true"), ("Wrap", "Wrap(1)"), ("Option<bool>", "Some(true)")]),
         ("'M'", vec![("char", "'M'"), ("u32", "77u32"), ("Wrap", "Wrap(77)")]),
         ("\"Hi\"", vec![("&'static str", "\"Hi\""), ("String", "String::from(\"Hi\")"), ("Wrap", "Wrap(2)")]),
         ("b'x'", vec![("u8", "120u8"), ("u16", "120u16"), ("Wrap", "Wrap(120)")]),
@@ -323,7 +323,7 @@ pub fn default_exprs() -> Vec<(&'static str, Vec<(&'static str, &'static str)>)>
         ("r\"a\\b\"", vec![("&'static str", "\"a\\\\b\""), ("String", "String::from(\"a\\\\b\")")]),
         ("\"q\\\"uote\"", vec![("&'static str", "\"q\\\"uote\""), ("String", "String::from(\"q\\\"uote\")")]),
         ("b'\\n'", vec![("u8", "10u8"), ("u16", "10u16")]),
-        ("false", vec![("bool", "false")]),
+        ("false", vec![("bool", "false"), ("Option<bool>", "Some(false)")]),
         // non-literal expressions that derive-mode syn parses: never converted
         ("u8::MAX", vec![("u8", "255u8")]),
         ("i64::MIN", vec![("i64", "i64::MIN")]),
